@@ -420,25 +420,42 @@ var removeGate = syncutil.NewGate(20) // arbitrary
 
 // RemoveBlobs removes the blobs from index and pads data with zero bytes
 func (s *storage) RemoveBlobs(ctx context.Context, blobs []blob.Ref) error {
-	batch := s.index.BeginBatch()
-	var wg syncutil.Group
+	// Look up where the blobs are before opening the batch (some index
+	// types don't allow reads while a batch is open), and delete their
+	// index rows before destroying their data: a blob which is still
+	// in the index must still be intact in its pack file, also if we
+	// die half way.
+	type found struct {
+		br   blob.Ref
+		meta blobMeta
+	}
+	var toDelete []found
 	for _, br := range blobs {
-		removeGate.Start()
+		meta, err := s.meta(br)
+		if errors.Is(err, os.ErrNotExist) {
+			continue
+		}
+		if err != nil {
+			return err
+		}
+		toDelete = append(toDelete, found{br, meta})
+	}
+	batch := s.index.BeginBatch()
+	for _, br := range blobs {
 		batch.Delete(br.String())
+	}
+	if err := s.index.CommitBatch(batch); err != nil {
+		return err
+	}
+	var wg syncutil.Group
+	for _, f := range toDelete {
+		removeGate.Start()
 		wg.Go(func() error {
 			defer removeGate.Done()
-			if err := s.delete(br); err != nil && !errors.Is(err, os.ErrNotExist) {
-				return err
-			}
-			return nil
+			return s.delete(f.br, f.meta)
 		})
 	}
-	err1 := wg.Err()
-	err2 := s.index.CommitBatch(batch)
-	if err1 != nil {
-		return err1
-	}
-	return err2
+	return wg.Err()
 }
 
 var statGate = syncutil.NewGate(20) // arbitrary
